@@ -1,6 +1,7 @@
 (* OptTextCheck.v — the check the driver evaluates on every haystack (IRShape.text_ok_b) establishes the text
    hypotheses of the optimizer theorems at the character boundaries of that haystack, except the one about
-   one-character steps, which the Loop1CharBody semantics checks itself at every step it takes. *)
+   one-character steps, which the Loop1CharBody semantics checks itself at every step it takes, and the one about
+   replaying a capture. *)
 From RV Require Import Base.
 From RV.Model Require Import Utf8 Indexer CodePointSet Insn IR Optimizer Unfold Emit.
 From RV.Spec Require Import IRSem IRShape.
@@ -42,9 +43,10 @@ Section Check.
   Theorem text_ok_b_sound :
     (forall body fwd s q q', matches_exactly_one_char body = true -> bnd q ->
        single_step ix unicode h (negb fwd) body fwd = Some s -> s q = Some (Some q') -> step_inv ix h fwd q q' = true) ->
+    (forall fwd p rs re e, bnd p -> bnd rs -> bnd re -> subrange_eq fwd h p rs re = Ok (Some e) -> bnd e) ->
     text_ok ix unicode h bnd.
   Proof.
-    intro Hstep. split; [|split; [|split; [|split; [|split]]]].
+    intros Hstep Hk4. split; [intros q Hq; apply bnd_le; exact Hq|]. split; [|split; [|split; [exact Hk4|split; [|split; [|split]]]]].
     - intros fwd p c p' Hp E. pose proof (pos_at fwd p Hp) as H. unfold text_pos_ok in H. rewrite E in H.
       apply andb_true_iff in H as [H _]. apply andb_true_iff in H as [H _]. apply andb_true_iff in H as [H _]. exact H.
     - intros p p' Hp E. destruct (chk_at p Hp) as (_ & _ & H). rewrite E in H. exact H.
